@@ -98,7 +98,9 @@ LC = S.LockCheck(
           "event by event by TLC (SyncTrace.tla); non-trivial = executions in which a lock() found the mutex taken "
           "(swap to 2 / FUTEX_WAIT) or a try_lock failed"),
     assumptions=S.COMMON_ASSUMPTIONS + [
-        "bounded: 2-4 threads, programs of 1-2 sections per thread, <=1 spurious wake and <=1 EINTR per thread, DFS preemption bounds as listed under coverage.exploration"])
+        "bounded: 2-4 threads, programs of 1-2 sections per thread, <=1 spurious wake and <=1 EINTR per thread, DFS preemption bounds as listed under coverage.exploration"],
+    all_actions=["LockFastCas", "TryLockCas", "SpinLoad1", "SpinLoad2", "ContendedCas01", "ContendedSwap2", "WaitFastLoad", "FutexWait",
+                 "UnlockSwap0", "WakeOne", "WakeNone", "Access", "SpuriousWake", "Eintr"])
 
 
 def run(tier):
@@ -107,7 +109,7 @@ def run(tier):
         configs = [("3", 3, "P3", (1, 1))]
         configs_if_differs = [("2", 2, "P2", (1, 1))]
         specs = [
-            ("dfs2", {"progs": PROGS["P2"], "preempt": 2, "max_runs": 3000, "spur": 1, "eintr": 1}),
+            ("dfs2", {"progs": PROGS["P2"], "preempt": 2, "max_runs": 3000, "spur": 1, "eintr": 1, "graph": "2"}),
             ("dfs2t", {"progs": [TAU + LAU, LAU], "preempt": 3, "max_runs": 3000, "spur": 1, "eintr": 0}),
             ("dfs3", {"progs": PROGS["P3"], "preempt": 2, "max_runs": 1500, "spur": 0, "eintr": 0}),
             ("rnd4", {"progs": [LAU + LAU, LAU + TAU, TAU + LAU, LAU], "runs": 150, "spur": 1, "eintr": 1}),
@@ -117,9 +119,9 @@ def run(tier):
         configs = [("3b", 3, "P3b", (1, 0)), ("4", 4, "P4", (1, 0)), ("4t", 4, "P4t", (1, 0))]
         configs_if_differs = [("2", 2, "P2", (1, 1)), ("3", 3, "P3", (1, 1))]
         specs = [
-            ("dfs2", {"progs": PROGS["P2"], "preempt": 4, "max_runs": 40000, "spur": 1, "eintr": 1}),
-            ("dfs2t", {"progs": PROGS["P2t"], "preempt": 4, "max_runs": 20000, "spur": 1, "eintr": 1}),
-            ("dfs3", {"progs": PROGS["P3"], "preempt": 3, "max_runs": 20000, "spur": 1, "eintr": 0}),
+            ("dfs2", {"progs": PROGS["P2"], "preempt": 4, "max_runs": 40000, "spur": 1, "eintr": 1, "graph": "2"}),
+            ("dfs2t", {"progs": PROGS["P2t"], "preempt": 4, "max_runs": 20000, "spur": 1, "eintr": 1, "graph": "2t"}),
+            ("dfs3", {"progs": PROGS["P3"], "preempt": 3, "max_runs": 20000, "spur": 1, "eintr": 1, "graph": "3"}),
             ("dfs3b", {"progs": PROGS["P3b"], "preempt": 2, "max_runs": 20000, "spur": 0, "eintr": 0}),
             ("dfs4", {"progs": PROGS["P4t"], "preempt": 2, "max_runs": 20000, "spur": 0, "eintr": 0}),
             ("rnd4", {"progs": [LAU + LAU, LAU + TAU, TAU + LAU, LAU + LAU], "runs": 3000, "spur": 1, "eintr": 1}),
